@@ -15,7 +15,9 @@ int mode (Gen.C05.*)
   subXoVal subXoMin subXoMax subYo…     right-hand sides of `params[prefix+"xo"].value/min/max -= xmin` (and yo/ymin)
   varyAmp varyXo varyYo varySx varySy varyTheta varyFlags     the `vary=` keyword of each `params.add(prefix + name, …)`
   copyPosErr copyShapeErr               the tests guarding `ns.err_ra = s.err_ra` and `ns.err_a = s.err_a`
+  clipXLo clipXHi clipYLo clipYHi        the interval each axis of the 3x3 "has data" box is clipped to (np.clip bounds)
 real mode
+  boxLoX boxHiX boxLoY boxHiY           the edges `cx - 1`, `cx + 2`, `cy - 1`, `cy + 2` of that box before clipping
   gauss                                 fitting.elliptical_gaussian (own copy)
   xoLocal yoLocal                       `value -= xmin` as `xo - xmin`
   xPix yPix                             `x_pix = xo + xmin + 1` of result_to_components
@@ -220,6 +222,36 @@ def _slice(repo):
     except Exception:  # noqa: BLE001
         pass
 
+    # 6. the 3x3 "has data" box around each component (source_finder.py ~1832): np.clip(<expr in cx>, lo, hi)
+    #    -> the clip bounds per axis (int mode) and the two offsets per axis (real mode).  Which of the two
+    #    expressions is the lower edge is decided by evaluating them at cx = cy = 0 (classification only).
+    try:
+        found = {'cx': [], 'cy': []}
+        for n in ast.walk(refit):
+            if isinstance(n, ast.Call) and isinstance(n.func, ast.Attribute) and n.func.attr == 'clip' and len(n.args) == 3:
+                names = {m.id for m in ast.walk(n.args[0]) if isinstance(m, ast.Name)}
+                for v in ('cx', 'cy'):
+                    if v in names and not ({'cx', 'cy'} - {v}) & names:
+                        exprs = list(n.args[0].elts) if isinstance(n.args[0], (ast.Tuple, ast.List)) else [n.args[0]]
+                        found[v].append((exprs, n.args[1], n.args[2]))
+        body_i, body_r = [], []
+        for v, tag in (('cx', 'x'), ('cy', 'y')):
+            assert found[v]
+            los = {ast.unparse(f[1]) for f in found[v]}
+            his = {ast.unparse(f[2]) for f in found[v]}
+            assert len(los) == 1 and len(his) == 1      # every call on this axis clips to the same interval
+            body_i += [_assign(f'clip_{tag}_lo', found[v][0][1]), _assign(f'clip_{tag}_hi', found[v][0][2])]
+            exprs = [e for f in found[v] for e in f[0]]
+            vals = [(eval(compile(ast.Expression(body=e), '<c05>', 'eval'), {'__builtins__': {}}, {'cx': 0.0, 'cy': 0.0}), k)
+                    for k, e in enumerate(exprs)]
+            assert len(exprs) == 2
+            lo_e, hi_e = (exprs[0], exprs[1]) if vals[0][0] <= vals[1][0] else (exprs[1], exprs[0])
+            body_r += [_assign(f'box_{tag}_lo', lo_e), _assign(f'box_{tag}_hi', hi_e)]
+        out.append(_mkfun('c05_clip', ['rows', 'cols'], body_i))
+        out.append(_mkfun('c05_box3', ['cx', 'cy'], body_r))
+    except Exception:  # noqa: BLE001
+        pass
+
     mod = ast.Module(body=out, type_ignores=[])
     ast.fix_missing_locations(mod)
     return ast.unparse(mod) + "\n"
@@ -309,6 +341,17 @@ TARGETS = [
          fallback={'copyPosErr': _fbS('copyPosErr', 'copyPosErrHand'),
                    'copyShapeErr': _fbS('copyShapeErr', 'copyShapeErrHand')},
          all_params=['stage']),
+    dict(file=_SL, func='c05_clip', mode='int', params={'rows': 'N', 'cols': 'N'},
+         subst={'idata.shape[0]': 'rows', 'idata.shape[1]': 'cols'},
+         outputs=[('clip_x_lo', 'clipXLo'), ('clip_x_hi', 'clipXHi'), ('clip_y_lo', 'clipYLo'), ('clip_y_hi', 'clipYHi')],
+         fallback={'clipXLo': 'def clipXLo (rows cols : Nat) : Nat := 0', 'clipXHi': 'def clipXHi (rows cols : Nat) : Nat := rows',
+                   'clipYLo': 'def clipYLo (rows cols : Nat) : Nat := 0', 'clipYHi': 'def clipYHi (rows cols : Nat) : Nat := cols'},
+         all_params=['rows', 'cols']),
+    dict(file=_SL, func='c05_box3', mode='real', params={'cx': 'A', 'cy': 'A'}, subst={},
+         outputs=[('box_x_lo', 'boxLoX'), ('box_x_hi', 'boxHiX'), ('box_y_lo', 'boxLoY'), ('box_y_hi', 'boxHiY')],
+         fallback={'boxLoX': _fbR('boxLoX', 'cx - R.ofNat 1', ['cx', 'cy']), 'boxHiX': _fbR('boxHiX', 'cx + R.ofNat 2', ['cx', 'cy']),
+                   'boxLoY': _fbR('boxLoY', 'cy - R.ofNat 1', ['cx', 'cy']), 'boxHiY': _fbR('boxHiY', 'cy + R.ofNat 2', ['cx', 'cy'])},
+         all_params=['cx', 'cy']),
     dict(file=_SL, func='c05_local', mode='real', params={p: 'A' for p in _P4}, subst={},
          outputs=[('xo_local', 'xoLocal'), ('yo_local', 'yoLocal')],
          fallback={'xoLocal': _fbR('xoLocal', 'xo - xmin', _P4), 'yoLocal': _fbR('yoLocal', 'yo - ymin', _P4)},
